@@ -5,6 +5,7 @@ model(A) with original ids; the next |B| equal model(B) with every id and every 
 inferred from the first appended instance, with d_B > max id before the append and common to all of B; same for C."""
 import json
 import os
+import re
 import shutil
 
 from hypothesis import strategies as st
@@ -82,6 +83,14 @@ def oracle(lib, pops, texts, wd, tag):
                 pass
 
 
+_NESTED = re.compile(r"^file \d+: #\d+ [A-Z0-9_]+\[\d+\](\[\d+\]){2,}: expected #(\d+), got \('ref', (\d+)\)$")
+
+
+def nested_ref_mismatch(p):
+    """the mismatch is a reference at aggregate depth >= 2 that kept its original (unshifted) id"""
+    return bool(_NESTED.match(p))
+
+
 def case(ctx, x):
     pops, layouts = x
     tag = ctx.tag()
@@ -89,7 +98,8 @@ def case(ctx, x):
     for p in pops:
         for k, v in p.pop("excluded", {}).items():
             ev.exclude(k, v)
-        p.pop("probe", None)
+        if p.pop("probe", None):
+            ev.bump("probe-population(nested aggregate refs allowed)")
     pops = [p for p in pops]
     if not pops[0]["instances"] or not any(p["instances"] for p in pops[1:]):
         ev.bump("degenerate(empty population)")
@@ -118,6 +128,9 @@ def case(ctx, x):
     ev.case(common.chash([ctx.schema_hash, [[[i["id"], [[pt["ent"], [p21gen.canon_value(v) for v in pt["vals"]]] for pt in i["parts"]]] for i in p["instances"]] for p in pops]]),
             nt, classes=classes, sample=sample)
     probs = oracle(ctx.lib, pops, texts, ctx.wd, tag)
+    if probs and "nested-aggregate-ref-not-shifted" in ctx.open_sigs and all(nested_ref_mismatch(p) for p in probs):
+        ctx.known("nested-aggregate-ref-not-shifted")
+        return
     if probs:
         sig = c01.signature(probs)
         if ctx.known(sig):
@@ -125,8 +138,8 @@ def case(ctx, x):
         raise Found({"what": "; ".join(probs[:4]), "sig": sig, "pops": pops, "texts": texts})
 
 
-def strategy(lib, cfg):
-    pop = p21gen.populations(lib["schema"], cfg)
+def strategy(lib, cfg, probe=None):
+    pop = p21gen.populations(lib["schema"], cfg, probe)
     return st.integers(2, 3).flatmap(lambda n: st.tuples(st.lists(pop, min_size=n, max_size=n),
                                                          st.lists(st.integers(0, 10**6), min_size=n, max_size=n)))
 
@@ -136,8 +149,12 @@ def main(tier, seed):
     cfg = dict(POP_CFG)
     if tier != "quick":
         cfg["max_inst"] = 20
+    probe = None
+    if any(e["sig"] == "nested-aggregate-ref-not-shifted" for e in common.Findings().open_for(PROP)):
+        cfg["no_nested_agg_refs"] = True
+        probe = {"no_nested_agg_refs": False}
     return farmcheck.run(PROP, "exploration", RULE, tier, seed, n_schemas, n_ex,
-                         make_strategy=lambda lib: strategy(lib, cfg), case_fn=case,
+                         make_strategy=lambda lib: strategy(lib, cfg, probe), case_fn=case,
                          confirm_fn=lambda lib, f, wd: bool(oracle(lib, f["pops"], f["texts"], wd, "confirm")),
                          replay_files=lambda f: dict([("pops.json", json.dumps(f["pops"]))] + [("input_%d.p21" % i, t) for i, t in enumerate(f["texts"])]),
                          schema_cfg=c01.SCHEMA_CFG)
